@@ -210,21 +210,39 @@ def repl_accessor(ctx):
     d = {}
     S = "get_paren_start(a1, a2)"
     E = "get_paren_end(a1, a2)"
+    CS = "a1.state.capture_state."
+
+    def known(gs, acc, fld):
+        """is this end of the group known to be set / unset on the path?  Through the accessor or, equally, by
+        reading the array directly (index in range and the slot Some)"""
+        if ("variant(%s)=Some" % acc) in gs or (("lt(a2, len(%s%s))" % (CS, fld)) in gs and ("variant(%s%s[a2])=Some" % (CS, fld)) in gs):
+            return True
+        if ("variant(%s)=None" % acc) in gs or ("!lt(a2, len(%s%s))" % (CS, fld)) in gs or ("variant(%s%s[a2])=None" % (CS, fld)) in gs:
+            return False
+        return None
+
     for p in checked(d, "get_paren", b, ctx.walk(b).paths):
         gs, r = summarize(p)
         gs = [_sh(strip_ver(g)) for g in gs]
         r = _sh(strip_ver(r))
         loc = b.loc(p.blocks[-1])
-        inr = "lt(a2, paren_count(a1))" in gs
-        both = ("variant(%s)=Some" % S) in gs and ("variant(%s)=Some" % E) in gs
-        if inr and both:
-            _rec(d, "some", r == "Option::Some{0: a1.search[Range::Range{start: %s as Some.0, end: %s as Some.0}]}" % (S, E), "a participating group must yield search[start..end]; found %s" % r[:100], loc)
-        elif "!lt(a2, paren_count(a1))" in gs:
-            _rec(d, "beyond-count", r == "Option::None", "a group number >= paren_count must yield None", loc)
-        elif inr:
-            _rec(d, "unset", r == "Option::None", "a group without both ends must yield None", loc)
-        else:
+        inr = True if ("lt(a2, paren_count(a1))" in gs or ("lt(a2, %sparen_count)" % CS) in gs) else False if ("!lt(a2, paren_count(a1))" in gs or ("!lt(a2, %sparen_count)" % CS) in gs) else None
+        s_, e_ = known(gs, S, "startn"), known(gs, E, "endn")
+        SV = ("%s as Some.0" % S, "%sstartn[a2] as Some.0" % CS)
+        EV = ("%s as Some.0" % E, "%sendn[a2] as Some.0" % CS)
+        if r != "Option::None":
+            good = inr is True and s_ is True and e_ is True and any(r == "Option::Some{0: a1.search[Range::Range{start: %s, end: %s}]}" % (sv, ev) for sv in SV for ev in EV)
+            if inr is None:
+                _rec(d, "count-test", False, "get_paren yields a group without comparing the group number with paren_count", loc)
+            _rec(d, "some", good, "a group is yielded only when n < paren_count and both ends are set, and then as search[start..end]; found %s under %s" % (r[:100], gs), loc)
+        elif inr is False:
+            _rec(d, "beyond-count", True, "", loc)
+        elif inr is True and (s_ is False or e_ is False):
+            _rec(d, "unset", True, "", loc)
+        elif inr is None:
             _rec(d, "count-test", False, "get_paren does not compare the group number with paren_count", loc)
+        else:
+            _rec(d, "some", False, "get_paren yields None for a group below paren_count whose two ends are not known to be unset (guards %s)" % gs, loc)
     for k in ("some", "beyond-count", "unset"):
         if k not in d:
             d[k] = [False, "get_paren lost its %s path" % k, b.loc()]
